@@ -9,6 +9,7 @@ import ColoVerif.Proofs.CheckedTranspTree
 import ColoVerif.Proofs.CheckedTranspCosts
 import ColoVerif.Proofs.CheckedTransp1dScale
 import ColoVerif.Model.LegacyChecked
+import ColoVerif.Proofs.CheckedGridHier
 /-
 C07 — placement calls return or throw; never crash or invoke undefined behaviour.
 
@@ -606,5 +607,116 @@ theorem transp_signed_costs_overflow :
         ⟨[0, 1431655764, 2147483647], [none, some 0, none], [false, true, false]⟩ with
       | .error f => decide (f = .intOverflow "updateTree: movingCost(i, bestVisit) + sendingCost_[bestVisit]")
       | .ok _ => false) = true := by decide
+
+/-! ### DensityGrid / HierarchicalDensityPlacement: the integer bookkeeping of the density grid -/
+
+open ColoVerif.Grid in
+/-- **DensityGrid constructor: no fault.**  (src/place_global/density_grid.cpp, `DensityGrid(binSize, regions)`;
+checked twin `DGrid.ofRegionsC`, Model/GridChecked.lean.)  For at most 2^16 regions, each a well-formed
+rectangle with coordinates within ±2^22 (`RectOk`), and a bin size of at least 1: the `int` extents
+`placementArea_.width() / maxSize`, both `computeSubdivisions` calls, the `int` sums `binLimit_[i] +
+binLimit_[i + 1]` of `updateBinCenters`, the `int` differences and 64-bit products of `updateBinCapacity()`,
+every `Rectangle::intersection(…).area()` (two `int` subtractions, one 64-bit product) and every
+`binCapacity_[i][j] +=` of `updateBinCapacity(regions)`, the `assert`s of `binLimitX/Y`, `updateBinCapacity`
+and `check()` and every vector index evaluate without fault, assertions enabled or not, and the grid is the
+one of the unbounded model (whose capacities C16 proves to be the region areas).  The capacity table has the
+grid's shape.  (The `float` halves of `updateBinCenters` and of `fromIspdCircuit` are not modelled.) -/
+theorem grid_capacity_no_fault (asr : Bool) (binSize : Int) (regions : List Rect) (hb : 1 ≤ binSize)
+    (hr : ∀ r ∈ regions, RectOk r) (hn : regions.length ≤ 65536) :
+    DGrid.ofRegionsC asr binSize regions = .ok (DGrid.ofRegions binSize regions) ∧
+    CapShape (DGrid.ofRegions binSize regions) :=
+  ⟨ofRegionsC_ok asr binSize regions hb hr hn, capacities_shape _ _ regions⟩
+
+open ColoVerif.Grid in
+/-- non-vacuity: two half-planes of the whole ±2^22 square, 2^21-wide bins (a 4 × 4 grid of 2^42-area bins) -/
+example : (∀ r ∈ [(⟨-4194304, 4194304, -4194304, 0⟩ : Rect), ⟨-4194304, 4194304, 0, 4194304⟩], RectOk r) ∧
+    (DGrid.ofRegionsC true 2097152 [⟨-4194304, 4194304, -4194304, 0⟩, ⟨-4194304, 4194304, 0, 4194304⟩]).toOption.map
+      (fun g => (g.limX, g.binCapacity 3 3)) = some ([-4194304, -2097152, 0, 2097152, 4194304], 4398046511104) := by
+  decide +kernel
+
+open ColoVerif.Grid in
+/-- **totalCapacity(): no fault.**  On any grid whose capacity table has the grid's shape, with non-negative
+capacities and a total that fits a `long long` (on the grid `grid_capacity_no_fault` builds the total is the
+total region area — C16 `grid_tiles_and_conserves` — hence at most 2^16 · 2^46), `totalCapacity()` indexes
+in range and none of its partial sums overflows. -/
+theorem grid_total_capacity_no_fault (g : DGrid) (hs : CapShape g)
+    (hnn : ∀ i j, i < g.nbX → j < g.nbY → 0 ≤ g.binCapacity i j) (ht : g.totalCapacity ≤ 9223372036854775807) :
+    g.totalCapacityC = .ok g.totalCapacity := totalCapacityC_ok g hs hnn ht
+
+open ColoVerif.Grid in
+example : (DGrid.mk [0, 5, 10] [0, 4] [[16], [14]]).totalCapacityC = .ok 30 := by decide
+
+open ColoVerif.Grid in
+/-- **Demands and usage: no fault.**  `HierarchicalDensityPlacement::fromIspdCircuit` narrows the `long long`
+area of every movable cell to the `int` element type of `cellDemand_`: no value is lost when the areas fit an
+`int` (`CellAreaOk`, the C07 domain: cell areas below 2^31).  With at most 2^20 cells and demands in
+`[0, 2^31)` (`DemandOk`), `totalDemand()` never overflows; and `binUsage(x, y)` on a bin of the table whose
+cells are cell indices (at most 2^20 of them — under C16's `AllocInv` a bin holds each cell at most once)
+passes `cellDemand`'s assertion, indexes in range and never overflows.  All equal the unbounded model. -/
+theorem grid_usage_no_fault (asr : Bool) (c : Circuit) (s : HState) (x y : Nat)
+    (hc : ∀ cl ∈ c.cells, CellAreaOk cl) (hd : DemandOk s.demand)
+    (hx : x < s.bins.length) (hy : y < (s.bins.getD x []).length)
+    (hcells : ∀ k ∈ s.cells x y, k < s.nbCells) (hlen : (s.cells x y).length ≤ 1048576) :
+    circuitDemandsC c = .ok (circuitDemands c) ∧
+    s.totalDemandC = .ok s.demand.sum ∧
+    s.binUsageC asr x y = .ok (s.binUsage x y) :=
+  ⟨circuitDemandsC_ok c hc, totalDemandC_ok s hd, binUsageC_ok asr s x y hx hy hcells hlen hd⟩
+
+open ColoVerif.Grid in
+/-- non-vacuity: a single-bin placement over three cells of area 2^31 − 1, 0 and 12 -/
+example : DemandOk [2147483647, 0, 12] ∧
+    (HState.init ⟨[0, 5, 10], [0, 4], [[16], [14]]⟩ [2147483647, 0, 12]).binUsageC true 0 0 = .ok 2147483659 ∧
+    (HState.init ⟨[0, 5, 10], [0, 4], [[16], [14]]⟩ [2147483647, 0, 12]).totalDemandC = .ok 2147483659 := by
+  decide
+
+open ColoVerif.Grid in
+/-- **Witness (beyond the domain).**  A movable cell of 2^16 × 2^15 has area 2^31: the narrowing to `int` in
+`fromIspdCircuit` loses the value (the C++ stores `INT_MIN`). -/
+theorem grid_demand_narrowing_beyond_domain :
+    cellDemandOfC ⟨65536, 32768, 0, 0, .N, false, false, .ANY⟩ =
+      .error (.intOverflow "fromIspdCircuit: demands.push_back(circuit.area(i)) (long long -> int)") := by decide
+
+open ColoVerif.Grid in
+/-- **refine / coarsen: no fault.**  In every state satisfying C16's invariant `Grid.Inv` (the allocation
+invariant and well-formed hierarchies over `nX × nY` fine bins — what `alloc_inv` proves for every state
+reachable from the constructor), with `int`-sized level counts: `refineX/refineY` at a level ≥ 1 and
+`coarsenX/coarsenY` below the top level pass their assertion, compute `levelX_ ± 1` without overflow, index
+`xLimits_[lvl]`, `parentX_[lvl][i]`, `binCells_[p][j]`, `newCells[p][j]` and, in `updateCellToBin()`,
+`cellBinX_[c]` in range, and return the unbounded model's state (which satisfies `Grid.Inv` again). -/
+theorem grid_refine_no_fault (asr : Bool) (s : HState) (nX nY : Nat) (h : Inv nX nY s)
+    (hnx : s.hx.nbLevels ≤ 2147483647) (hny : s.hy.nbLevels ≤ 2147483647) :
+    (1 ≤ s.levelX → s.refineXC asr = .ok s.refineX) ∧
+    (1 ≤ s.levelY → s.refineYC asr = .ok s.refineY) ∧
+    (s.levelX + 1 < s.hx.nbLevels → s.coarsenXC asr = .ok s.coarsenX) ∧
+    (s.levelY + 1 < s.hy.nbLevels → s.coarsenYC asr = .ok s.coarsenY) :=
+  ⟨fun hl => refineXC_ok asr s nX nY h hl hnx, fun hl => refineYC_ok asr s nX nY h hl hny,
+   fun hl => coarsenXC_ok asr s nX nY h hl hnx, fun hl => coarsenYC_ok asr s nX nY h hl hny⟩
+
+open ColoVerif.Grid in
+/-- non-vacuity: the state the constructor builds over a 2 × 1 grid satisfies the invariant, is at level 1 in
+x, and the checked `refineX` answers -/
+example : Inv 2 1 (HState.init ⟨[0, 5, 10], [0, 4], [[16], [14]]⟩ [3, 0, 12]) ∧
+    1 ≤ (HState.init ⟨[0, 5, 10], [0, 4], [[16], [14]]⟩ [3, 0, 12]).levelX ∧
+    ((HState.init ⟨[0, 5, 10], [0, 4], [[16], [14]]⟩ [3, 0, 12]).refineXC true).toOption.map (·.bins) =
+      some [[[0, 2]], [[]]] :=
+  ⟨inv_init ⟨[0, 5, 10], [0, 4], [[16], [14]]⟩ [3, 0, 12] (by decide) (by decide), by decide, by decide⟩
+
+open ColoVerif.Grid in
+/-- **Witnesses (beyond the domain / outside the contract).**  A placement area wider than `INT_MAX` overflows
+`Rectangle::width()`; an area `[2^30, 2^31 − 1]` overflows the `int` sum of `updateBinCenters`; three regions of
+`(2^31 − 1)²` overflow the 64-bit accumulation of `updateBinCapacity(regions)`; `refineX()` at level 0 trips its
+assertion and, without assertions, indexes `xLimits_[-1]`. -/
+theorem grid_overflow_beyond_domain :
+    DGrid.ofRegionsC true 1000 [⟨-1073741824, 1073741824, 0, 10⟩] =
+      .error (.intOverflow "Rectangle::width: max - min") ∧
+    DGrid.ofRegionsC true 1073741824 [⟨1073741824, 2147483647, 0, 10⟩] =
+      .error (.intOverflow "updateBinCenters: binLimit_[i] + binLimit_[i + 1]") ∧
+    DGrid.ofRegionsC true 2147483647 [⟨-1073741824, 1073741823, -1073741824, 1073741823⟩,
+        ⟨-1073741824, 1073741823, -1073741824, 1073741823⟩, ⟨-1073741824, 1073741823, -1073741824, 1073741823⟩] =
+      .error (.intOverflow "updateBinCapacity: binCapacity_[i][j] += intersection.area()") ∧
+    (HState.init ⟨[0, 10], [0, 4], [[40]]⟩ [3]).refineXC true = .error (.assertFailed "refineX: levelX_ >= 1") ∧
+    (HState.init ⟨[0, 10], [0, 4], [[40]]⟩ [3]).refineXC false =
+      .error (.indexOutOfRange "refineX: xLimits_[levelX_]") := by
+  decide +kernel
 
 end ColoVerif.C07
